@@ -234,6 +234,19 @@ func ReturnedDirectly(v ssa.Value) bool {
 				if walk(y) {
 					return true
 				}
+			case *ssa.Store:
+				// result spill of functions with defers: *r = v; rundefers; t = *r; return t
+				if y.Val == x {
+					if a, ok := y.Addr.(*ssa.Alloc); ok {
+						if ar := a.Referrers(); ar != nil {
+							for _, l := range *ar {
+								if u, ok := l.(*ssa.UnOp); ok && u.Op == token.MUL && walk(u) {
+									return true
+								}
+							}
+						}
+					}
+				}
 			}
 		}
 		return false
